@@ -48,6 +48,16 @@ PROPS = {
             dict(name="TestPanics", quick=6000, thorough=50000, shards_thorough=16),
         ],
     ),
+    "C08": dict(
+        pkg="c08", level="exploration",
+        technique="property-based testing (rapid) with history invariants over a recorded call trace",
+        level_text="Random search over handler lists, cancellation points and hook subsets; the oracle is a set of ordering/exactly-once rules evaluated on the recorded trace of hook and handler calls.",
+        level_note="Cancellation by an asynchronous handler has no determined timing: only at-most-once is asserted for those cases. Hook contexts are not inspected (the property speaks of handler contexts).",
+        assumptions=COMMON_ASSUME + ["trace order is the order in which user code was entered (one mutex-protected append per call)"],
+        tests=[
+            dict(name="TestCtxHooks", quick=8000, thorough=60000, shards_thorough=16),
+        ],
+    ),
 }
 
 HOOK_COMMITS = []
